@@ -13,7 +13,7 @@ use serde_json::json;
 use std::time::Duration;
 
 const RULE: &str = "one case = one execution in virtual time of a real endpoint with keepalive (I, T) from {1,2,3,5,10,60}^2 s (incl. T<I clamped, T=I) or keepalive disabled, against a raw peer whose pong script is: \
-always answer after d in [0,T'], answer k rounds then go silent, never answer, answer late (> T'), always answer with a different delay in [0,T'] per Ping, always answer while the executor is busy until just after the next tick (Pong and tick handled in the same poll). Oracle K1-K5 on the tap's virtual timestamps: k-th Ping at exactly k*I; a KeepaliveTimeout at tau requires tau - last_pong >= T'; \
+always answer after d in [0,T'], answer k rounds then go silent, never answer, answer late (> T'), always answer with a different delay in [0,T'] per Ping, always answer while the executor is busy until just after the next tick (Pong and tick handled in the same poll); and never / k rounds / always again with a peer that sends Pings of its own every I/2..T' (they are not answers). Oracle K1-K5 on the tap's virtual timestamps: k-th Ping at exactly k*I; a KeepaliveTimeout at tau requires tau - last_pong >= T'; \
 a silent peer is detected by last_pong + T' + I; answered-in-time and disabled cases run to a horizon of 2000 intervals without returning; after the timeout every pending application operation resolves before quiescence. \
 The (I,T) grid x script kinds is enumerated completely; delays are seeded. Non-trivial = at least two Pings were observed or keepalive was disabled";
 
@@ -50,7 +50,7 @@ fn observe(log: &[Rec]) -> Obs {
     o
 }
 
-fn one(st: &mut Stats, seed: u64, i_s: u64, t_s: u64, script: Script, reverse_order: bool) {
+fn one(st: &mut Stats, seed: u64, i_s: u64, t_s: u64, script: Script, reverse_order: bool, peer_ping_ms: u64) {
     st.evaluations += 1;
     st.engine("SIM", 1);
     let mut rng = Rng64::new(mix(seed, 0x16));
@@ -61,7 +61,7 @@ fn one(st: &mut Stats, seed: u64, i_s: u64, t_s: u64, script: Script, reverse_or
     let horizon_ms = if i_s == 0 { 3_000_000 } else { 2000 * i_ms };
     let script2 = script.clone();
     let expect_timeout = i_s > 0 && t_s > 0 && !reverse_order && matches!(script, Script::Rounds { .. } | Script::Never);
-    let kind = format!("{script:?}").split(|c| c == ' ' || c == '{').next().unwrap_or("").to_string();
+    let kind = format!("{}{}", format!("{script:?}").split(|c| c == ' ' || c == '{').next().unwrap_or(""), if peer_ping_ms > 0 { "+peer-pings" } else { "" });
     let end = sim::run_with_watchdog(&sh, Duration::from_millis(horizon_ms + 10_000_000), move |sh| async move {
         let (w0, w1, _net) = memws::pair(&sh, [0, 0], [None, None], false);
         let e0 = wl::endpoint(&sh, 0, &cfg, w0, seed);
@@ -81,11 +81,17 @@ fn one(st: &mut Stats, seed: u64, i_s: u64, t_s: u64, script: Script, reverse_or
         let t_end = tokio::time::Instant::now() + Duration::from_millis(horizon_ms);
         let mut task = e0.task;
         let mut returned = false;
+        // the peer may run keepalive of its own: its Pings keep arriving whether or not it answers ours
+        let mut next_peer_ping = tokio::time::Instant::now() + Duration::from_millis(peer_ping_ms.max(1));
         loop {
             let next_due = due.iter().min().copied();
             tokio::select! {
                 biased;
                 r = &mut task, if !returned => { let _ = r; returned = true; break; }
+                () = tokio::time::sleep_until(next_peer_ping), if peer_ping_ms > 0 => {
+                    raw.send_msg(Message::Ping).await;
+                    next_peer_ping += Duration::from_millis(peer_ping_ms);
+                }
                 () = async { match next_due { Some(t) => tokio::time::sleep_until(t).await, None => std::future::pending().await } } => {
                     let now = tokio::time::Instant::now();
                     let n = due.iter().filter(|t| **t <= now).count();
@@ -143,8 +149,8 @@ fn one(st: &mut Stats, seed: u64, i_s: u64, t_s: u64, script: Script, reverse_or
     let o = observe(&log);
     let cfgs = format!("I={i_s}s T={t_s}s{}", if reverse_order { " (timeout set before interval)" } else { "" });
     let mut fail = |st: &mut Stats, sig: String, detail: String| {
-        st.violation(Violation { signature: sig, detail: format!("{detail} [{cfgs}, script {script:?}]"),
-            replay: json!({"kind": "c16", "run_seed": seed, "I": i_s, "T": t_s, "script": format!("{script:?}"), "reverse_order": reverse_order,
+        st.violation(Violation { signature: sig, detail: format!("{detail} [{cfgs}, script {script:?}{}]", if peer_ping_ms > 0 { format!(", peer sends its own Ping every {peer_ping_ms} ms") } else { String::new() }),
+            replay: json!({"kind": "c16", "run_seed": seed, "I": i_s, "T": t_s, "script": format!("{script:?}"), "reverse_order": reverse_order, "peer_ping_every_ms": peer_ping_ms,
                 "pings_ms": o.pings.iter().take(12).map(|t| t / 1000).collect::<Vec<_>>(), "pongs_ms": o.pongs.iter().take(12).map(|t| t / 1000).collect::<Vec<_>>(),
                 "task_return": o.ret.as_ref().map(|(t, r)| format!("{r} at {} ms", t / 1000)), "trace_tail": sim::render(&log, 40)}) });
     };
@@ -265,7 +271,7 @@ pub fn run(p: &Params) -> (Stats, &'static str) {
     for rep in 0..reps {
         for i_s in vals {
             for t_s in vals {
-                for kind in 0..9 {
+                for kind in 0..12 {
                     idx += 1;
                     if idx % p.nshards != p.shard {
                         continue;
@@ -273,7 +279,12 @@ pub fn run(p: &Params) -> (Stats, &'static str) {
                     let seed = mix(base, idx);
                     let mut rng = Rng64::new(seed);
                     let tp = t_s.max(i_s) * 1000;
+                    // kinds 9-11: the peer also sends Pings of its own (which are no answers to ours)
+                        let peer_ping_ms = if kind >= 9 { (*rng.pick(&[i_s * 500, i_s * 1000, tp / 2, tp])).max(1) } else { 0 };
                     let script = match kind {
+                        9 => Script::Never,
+                        10 => Script::Rounds { k: rng.range(1, 4) as u32, d_ms: rng.range(0, tp) },
+                        11 => Script::Always { d_ms: rng.range(0, tp) },
                         0 => Script::Always { d_ms: *rng.pick(&[0, 1, tp / 2, tp - 1, tp]) },
                         1 => Script::Always { d_ms: rng.range(0, tp) },
                         2 => Script::Rounds { k: rng.range(1, 5) as u32, d_ms: rng.range(0, tp) },
@@ -287,21 +298,21 @@ pub fn run(p: &Params) -> (Stats, &'static str) {
                         6 => Script::AlwaysBusy { d_ms: *rng.pick(&[1, i_s * 250, i_s * 500]), every: rng.range(2, 3) as u32 },
                         _ => Script::Late { d_ms: tp + rng.range(1, 3 * i_s * 1000) },
                     };
-                    one(&mut st, seed, i_s, t_s, script, false);
+                    one(&mut st, seed, i_s, t_s, script, false, peer_ping_ms);
                     st.cell("I_T", format!("{i_s}/{t_s}"));
                     let _ = rep;
                 }
             }
         }
     }
-    st.exhaustive.push("(I,T) in {1,2,3,5,10,60}^2 x 9 pong-script kinds (delays seeded)".into());
+    st.exhaustive.push("(I,T) in {1,2,3,5,10,60}^2 x 12 pong-script kinds (delays seeded)".into());
     // disabled keepalive, timeout disabled, reverse builder order (probe)
     if p.shard == 0 {
         for (j, t_s) in [0u64, 5, 60].into_iter().enumerate() {
-            one(&mut st, mix(base, 900 + j as u64), 0, t_s, Script::Never, false);
+            one(&mut st, mix(base, 900 + j as u64), 0, t_s, Script::Never, false, if j == 2 { 1500 } else { 0 });
         }
         for (j, (i_s, t_s)) in [(5u64, 2u64), (2, 5), (10, 1)].into_iter().enumerate() {
-            one(&mut st, mix(base, 950 + j as u64), i_s, t_s, Script::Never, true);
+            one(&mut st, mix(base, 950 + j as u64), i_s, t_s, Script::Never, true, 0);
         }
         st.notes.push("probe: with the builder called as keepalive_timeout(T) before keepalive_interval(I) the clamp max(T, NONE) disables the timeout altogether; recorded, no verdict (the client sets the interval first)".into());
     }
@@ -314,9 +325,9 @@ pub fn debug(i_s: u64, t_s: u64, d_ms: u64, every: u32) {
     sim::install_observer();
     let mut st = Stats::new();
     if every == 0 {
-        one(&mut st, 42, i_s, t_s, Script::AlwaysVar { delays_ms: vec![0, d_ms] }, false);
+        one(&mut st, 42, i_s, t_s, Script::AlwaysVar { delays_ms: vec![0, d_ms] }, false, 0);
     } else {
-        one(&mut st, 42, i_s, t_s, Script::AlwaysBusy { d_ms, every }, false);
+        one(&mut st, 42, i_s, t_s, Script::AlwaysBusy { d_ms, every }, false, 0);
     }
     for v in &st.violations {
         println!("VIOL {} :: {}", v.signature, v.detail);
